@@ -85,13 +85,13 @@ def get_kvm_hashes(data, size: int):  # slowest function
     data = list(set(data))
 
     # Build a list with the hash values of the first 'size' elements or all elements if fewer.
-    min_hashes = [-xxh32(str(element)).intdigest() for element in data[:size]]
+    min_hashes = [-xxh32(str(element).encode()).intdigest() for element in data[:size]]
 
     # Transform the list into a heap in-place.
     heapq.heapify(min_hashes)
 
     for element in data[size:]:
-        hash_value = xxh32(str(element)).intdigest()
+        hash_value = xxh32(str(element).encode()).intdigest()
 
         # If the current hash is smaller than the largest in the heap
         if hash_value < -min_hashes[0]:
